@@ -102,6 +102,56 @@ func pollGone(d time.Duration, f func() []string) []string {
 	}
 }
 
+// c11ConnackLost: the connection is lost in the outbound direction between CONNECT and CONNACK
+// (the CONNACK cannot be written). The session the broker may already have set up ends for
+// cause and must leave nothing behind.
+func c11ConnackLost(c *fw.Ctx, idx, nNodes int) {
+	fw.LogCase("C11 connack-lost %d nodes=%d", idx, nNodes)
+	cl := kit.NewCluster(kit.WorkDir("c11k"))
+	defer cl.Close()
+	nodes := []*kit.Node{}
+	for i := 1; i <= nNodes; i++ {
+		n, err := cl.AddNode(kit.NodeOpts{ID: uint64(i)})
+		if err != nil {
+			c.Inconclusive("cannot start node: " + err.Error())
+			return
+		}
+		nodes = append(nodes, n)
+	}
+	cl.StartPump(3 * time.Millisecond)
+	host := nodes[idx%nNodes]
+	clientID := fmt.Sprintf("connack-lost-%d", idx)
+	v, fault := host.DialFaulty(clientID)
+	defer v.Close()
+	fault.FailWrites(true)
+	v.Send(kit.EncConnect(kit.ConnectOpts{ClientID: clientID, KeepAlive: 600, Clean: true, Will: idx%2 == 0, WillTopic: "c11/will", WillPayload: []byte("w")}))
+	time.Sleep(time.Duration(50+100*(idx%3)) * time.Millisecond)
+	v.Close()
+	left := pollGone(10*time.Second, func() []string {
+		t := []string{}
+		for _, n := range nodes {
+			for _, m := range n.State.SessionMetadatas().All() {
+				if m.ClientID == clientID {
+					t = append(t, fmt.Sprintf("n%d still lists session %s (client %s)", n.ID, m.SessionID, m.ClientID))
+				}
+			}
+			for _, s := range n.Local.ListSessions() {
+				if s.ClientID() == clientID {
+					t = append(t, fmt.Sprintf("n%d local registry still holds %s", n.ID, s.ID()))
+				}
+			}
+		}
+		return t
+	})
+	c.Observe("cleanups_checked", 1)
+	c.Observe("connack_lost_scenarios", 1)
+	c.Case(fmt.Sprintf("connack-lost|%d|%d", idx, nNodes), true)
+	if len(left) > 0 {
+		c.Violation("trace-left:session-record:connack-write-fails", fmt.Sprintf("cause=CONNACK cannot be written (connection lost between CONNECT and CONNACK), %d node(s), session on n%d: 10 s after the connection ended: %s", nNodes, host.ID, strings.Join(left, "; ")),
+			map[string]interface{}{"scenario": idx, "nodes": nNodes, "left": left})
+	}
+}
+
 type c11Idle struct {
 	k     int     // keep-alive seconds
 	frac  float64 // idle fraction of k
@@ -456,7 +506,7 @@ func c11CleanupScenario(c *fw.Ctx, idx int, sc c11Cleanup) {
 }
 
 func runC11(c *fw.Ctx) {
-	c.Rule = "(A) no spurious end: clients with keep-alive 2/5/10 s (and 40000 / 65535 s, idle 0.4-0.65 s) idle for 0.5-0.75 of it right after CONNECT, after SUBSCRIBE or between pings, measuring their own send times, then send PINGREQ; verdict only if every measured gap stayed <= 0.8 x keep-alive. (B) cleanup: cause in {DISCONNECT, client closes, silence beyond the allowance, second CONNECT, undecodable packet, displacement on the same / another node followed by the old session's PINGREQ, failure of the hosting node, outbound write failure exactly at a SUBACK (fault-injecting connection), displacement followed by the failure of the old host before the old session's next keep-alive exchange} x subscription sets (none, one, several, after unsubscribes) x 1-3 nodes with a running gossip pump; observed: EOF at the client end, SessionMetadatas/Subscriptions listings and local registries of every node (polled <= 10 s), packets at the ended session's pipe after later publishes (witness barrier), and at quiescence the invariant 'every listed subscription belongs to a listed session connected on the node it names'. distinct = scenario parameters; non-trivial = all"
+	c.Rule = "(A) no spurious end: clients with keep-alive 2/5/10 s (and 40000 / 65535 s, idle 0.4-0.65 s) idle for 0.5-0.75 of it right after CONNECT, after SUBSCRIBE or between pings, measuring their own send times, then send PINGREQ; verdict only if every measured gap stayed <= 0.8 x keep-alive. (B) cleanup: cause in {DISCONNECT, client closes, silence beyond the allowance, second CONNECT, undecodable packet, displacement on the same / another node followed by the old session's PINGREQ, failure of the hosting node, outbound write failure exactly at a SUBACK or at the CONNACK (fault-injecting connection), displacement followed by the failure of the old host before the old session's next keep-alive exchange} x subscription sets (none, one, several, after unsubscribes) x 1-3 nodes with a running gossip pump; observed: EOF at the client end, SessionMetadatas/Subscriptions listings and local registries of every node (polled <= 10 s), packets at the ended session's pipe after later publishes (witness barrier), and at quiescence the invariant 'every listed subscription belongs to a listed session connected on the node it names'. distinct = scenario parameters; non-trivial = all"
 	c.Assume("keep-alive allowance: a client that never lets more than 0.8 x keep-alive pass between packets is within it (MQTT allows 1.5 x)")
 	c.Assume("teardown predicates are polled for <= 10 s; there is no code path that makes them true later than the teardown itself")
 	var wg sync.WaitGroup
@@ -521,6 +571,9 @@ func runC11(c *fw.Ctx) {
 		}(i, sc)
 	}
 	wg.Wait()
+	for i := 0; i < c.Pick(6, 40); i++ {
+		c11ConnackLost(c, i, 1+i%3)
+	}
 	c.Sample(map[string]interface{}{"part": "idle", "scenario": fmt.Sprintf("%+v", idles[3])})
 	c.Sample(map[string]interface{}{"part": "cleanup", "scenario": fmt.Sprintf("%+v", scen[len(scen)/2])})
 	c.Floor("idle_scenarios_judged", 3)
